@@ -147,6 +147,7 @@ fn op_name(op: &Op) -> &'static str {
         Op::Clear => "clear",
         Op::Reserve(_) => "reserve",
         Op::Extend(_) => "extend",
+        Op::ParExtend(..) => "par_extend",
         Op::Collect(..) => "collect",
         _ => "other",
     }
@@ -248,6 +249,9 @@ pub struct RunResult {
     pub midrun_checks: u64,
     pub retire_errors: Vec<String>,
     pub retire_checks: u64,
+    /// simulated pool (C19): parts published, run by a helper thread, run by the publisher
+    /// itself, and waits of a publisher for a part still running elsewhere
+    pub par: [u64; 4],
 }
 
 pub enum Tgt {
@@ -289,6 +293,7 @@ struct Shared<'a> {
     midrun_every: Option<u32>,
     hash: HashKind,
     midrun: &'a Mutex<(Vec<String>, u64)>,
+    pool: &'a crate::par::Pool,
 }
 
 fn midrun_inspect(sh: &Shared<'_>, thread: u8, after_op: usize) {
@@ -758,7 +763,91 @@ fn exec_op(ctx: &mut Ctx<'_>, op: &Op) -> Res {
             ctx.iter = Some(AnyIter::SetKeys(s.iter(g)));
             Res::Unit
         }
+        (Tgt::Map(m), Op::ParExtend(kv, parts, via_ref)) => {
+            use rayon::iter::ParallelExtend;
+            let items: Vec<(Key, Val)> = kv.iter().map(|(k, v)| (Key::new(*k), Val::new(*v))).collect();
+            let it = crate::par::SimParIter { parts: crate::par::cut(items, *parts as usize), pool: sh.pool };
+            if *via_ref {
+                let mut r = m.pin();
+                r.par_extend(it);
+            } else {
+                let mut mm: &Map = m;
+                mm.par_extend(it);
+            }
+            Res::Unit
+        }
+        (Tgt::Set(s), Op::ParExtend(kv, parts, via_ref)) => {
+            use rayon::iter::ParallelExtend;
+            let items: Vec<Key> = kv.iter().map(|(k, _)| Key::new(*k)).collect();
+            let it = crate::par::SimParIter { parts: crate::par::cut(items, *parts as usize), pool: sh.pool };
+            if *via_ref {
+                let mut r = s.pin();
+                r.par_extend(it);
+            } else {
+                let mut ss: &Set = s;
+                ss.par_extend(it);
+            }
+            Res::Unit
+        }
+        (Tgt::Map(_), Op::ParCollect(kv, parts)) => {
+            use rayon::iter::FromParallelIterator;
+            DEFAULT_HASH.with(|c| c.set(sh.hash));
+            let items: Vec<(Key, Val)> = kv.iter().map(|(k, v)| (Key::new(*k), Val::new(*v))).collect();
+            let it = crate::par::SimParIter { parts: crate::par::cut(items, *parts as usize), pool: sh.pool };
+            let m: Map = Map::from_par_iter(it);
+            let mut out = Vec::new();
+            {
+                let g = m.guard();
+                for (k, v) in m.iter(&g) {
+                    let (kk, ki) = kread(ctx, k, "from_par_iter().iter");
+                    let vi = vread(ctx, v, "from_par_iter().iter").0;
+                    out.push(Item { k: kk, kinst: ki, vid: vi, clock: sched::now() });
+                }
+                for (k, _) in kv {
+                    if m.get(&KeyQ(*k), &g).is_none() {
+                        ctx.errors.push(format!("t{} from_par_iter(): key {} was supplied but lookup in the collected map fails", ctx.thread, k));
+                    }
+                }
+                if m.len() != out.len() {
+                    ctx.errors.push(format!("t{} from_par_iter(): len() = {} but iteration yields {} entries", ctx.thread, m.len(), out.len()));
+                }
+            }
+            ctx.refs.retain(|r| r.got_clock == u64::MAX);
+            drop(m);
+            Res::Items { items: out, done: true }
+        }
+        (Tgt::Set(_), Op::ParCollect(kv, parts)) => {
+            use rayon::iter::FromParallelIterator;
+            DEFAULT_HASH.with(|c| c.set(sh.hash));
+            let items: Vec<Key> = kv.iter().map(|(k, _)| Key::new(*k)).collect();
+            let it = crate::par::SimParIter { parts: crate::par::cut(items, *parts as usize), pool: sh.pool };
+            let s: Set = Set::from_par_iter(it);
+            let mut out = Vec::new();
+            {
+                let g = s.guard();
+                for k in s.iter(&g) {
+                    let (kk, ki) = kread(ctx, k, "set.from_par_iter().iter");
+                    out.push(Item { k: kk, kinst: ki, vid: 0, clock: sched::now() });
+                }
+                for (k, _) in kv {
+                    if !s.contains(&KeyQ(*k), &g) {
+                        ctx.errors.push(format!("t{} set.from_par_iter(): key {} was supplied but lookup in the collected set fails", ctx.thread, k));
+                    }
+                }
+                if s.len() != out.len() {
+                    ctx.errors.push(format!("t{} set.from_par_iter(): len() = {} but iteration yields {} entries", ctx.thread, s.len(), out.len()));
+                }
+            }
+            ctx.refs.retain(|r| r.got_clock == u64::MAX);
+            drop(s);
+            Res::Items { items: out, done: true }
+        }
+        (_, Op::ParHelp(n)) => {
+            sh.pool.help(*n as usize);
+            Res::Unit
+        }
         (_, Op::Collect(kv, hint)) => {
+            DEFAULT_HASH.with(|c| c.set(sh.hash));
             let items: Vec<(Key, Val)> = kv.iter().map(|(k, v)| (Key::new(*k), Val::new(*v))).collect();
             let m: Map = if *hint { items.into_iter().collect() } else { items.into_iter().filter(|_| true).collect() };
             let mut out = Vec::new();
@@ -928,7 +1017,7 @@ pub fn universe(p: &Program) -> Vec<u32> {
             if let Some(k) = o.key() {
                 ks.push(k);
             }
-            if let Op::Extend(kv) = o {
+            if let Op::Extend(kv) | Op::ParExtend(kv, _, _) = o {
                 ks.extend(kv.iter().map(|x| x.0));
             }
             if let Op::Retain(Pred::ReinsertReject(k, _)) | Op::RetainForce(Pred::ReinsertReject(k, _)) = o {
@@ -1082,6 +1171,7 @@ pub fn execute(p: &Program, mut setup: RunSetup, opts: &ExecOpts) -> RunResult {
     };
     let callbacks = AtomicU64::new(0);
     let midrun = Mutex::new((Vec::new(), 0u64));
+    let pool = crate::par::Pool::default();
     let shared = Shared {
         tgt: &tgt,
         callbacks: &callbacks,
@@ -1089,6 +1179,7 @@ pub fn execute(p: &Program, mut setup: RunSetup, opts: &ExecOpts) -> RunResult {
         midrun_every: opts.midrun_every,
         hash: p.cfg.hash,
         midrun: &midrun,
+        pool: &pool,
     };
     let n = p.threads.len();
     let outs: Vec<Mutex<Option<(Vec<OpRec>, Vec<GuardInterval>, Vec<String>, u64)>>> = (0..n).map(|_| Mutex::new(None)).collect();
@@ -1205,6 +1296,7 @@ pub fn execute(p: &Program, mut setup: RunSetup, opts: &ExecOpts) -> RunResult {
             midrun_checks: 0,
             retire_errors,
             retire_checks,
+            par: [0; 4],
         };
     }
 
@@ -1245,5 +1337,11 @@ pub fn execute(p: &Program, mut setup: RunSetup, opts: &ExecOpts) -> RunResult {
         midrun_checks: mr.1,
         retire_errors,
         retire_checks,
+        par: [
+            pool.published.load(AO::Relaxed) as u64,
+            pool.by_helper.load(AO::Relaxed) as u64,
+            pool.by_owner.load(AO::Relaxed) as u64,
+            pool.owner_waits.load(AO::Relaxed) as u64,
+        ],
     }
 }
